@@ -26,6 +26,10 @@ def run(ctx, rep):
     TR.check_display_templates(fx, rep, "C08.4")
     TR.check_format_helpers(fx, rep, "C08.4")
     TR.check_element_display(fx, rep, "C08.4")
+    # "printing the typed result gives exactly the text API's output": the text API and its line classifiers are the other side
+    for impl in ("mapper", "cache"):
+        TR.check_text_api(fx, rep, "C08.6", impl)
+    TR.check_classifiers(fx, rep, "C08.6")
     import api_rules as AR
     AR.check_throwable_trace_api(fx, rep, "C08.api")
     AR.check_frame_api(fx, rep, "C08.api")
